@@ -36,30 +36,63 @@ theorem sgOf_ne_plus (neg : Bool) : sgOf neg ≠ .plus := by cases neg <;> simp 
 theorem sgOf_chars (neg : Bool) (x : List Char) : (sgOf neg).chars ++ x = sgn neg x := by
   cases neg <;> simp [sgOf, Sg.chars, sgn]
 
+/-- the output shape of the minifier: a dot is followed by a digit and the integer digits do not start with `0` -/
+def MinShape (l : Lex) : Prop := (l.dot = true → l.fp ≠ []) ∧ (∀ t, l.ip ≠ '0' :: t)
+
+/-- `MinShape` except that the integer part may be exactly `0` -/
+def MinShape0 (l : Lex) : Prop := (l.dot = true → l.fp ≠ []) ∧ (∀ t, l.ip = '0' :: t → t = [])
+
+theorem MinShape.to0 {l : Lex} (h : MinShape l) : MinShape0 l :=
+  ⟨h.1, fun t e => absurd e (h.2 t)⟩
+
+theorem lead_append {ds : List Char} (hne : ds ≠ []) (h0 : ∀ t, ds ≠ '0' :: t) (x : List Char) :
+    ∀ t, ds ++ x ≠ '0' :: t := by
+  intro t e
+  cases ds with
+  | nil => exact hne rfl
+  | cons c r => simp only [List.cons_append] at e; injection e with e1 _; exact h0 r (by rw [e1])
+
+theorem lead_take {ds : List Char} (h0 : ∀ t, ds ≠ '0' :: t) (k : Nat) : ∀ t, ds.take k ≠ '0' :: t := by
+  intro t e
+  cases ds with
+  | nil => simp at e
+  | cons c r =>
+    cases k with
+    | zero => simp at e
+    | succ k => simp only [List.take_succ_cons] at e; injection e with e1 _; exact h0 r (by rw [e1])
+
+theorem lead_of_append {a b : List Char} (_hne : a ≠ []) (h0 : ∀ t, a ++ b ≠ '0' :: t) : ∀ t, a ≠ '0' :: t := by
+  intro t e
+  rw [e] at h0
+  exact h0 (t ++ b) rfl
+
 /-- an output of the print stage: a well-formed lexeme without `+`, with the right sign -/
 structure OutLex (neg : Bool) (out : List Char) (l : Lex) : Prop where
   wf : l.WF
   str : l.str = out
   sg : l.sg = sgOf neg
+  shape : MinShape l
 
 theorem nonempty_of_ne_nil {l : List Char} (h : l ≠ []) : l.isEmpty = false := by
   cases l with | nil => exact absurd rfl h | cons _ _ => rfl
 
 /-- mantissa without exponent part -/
 theorem outLex_plain (neg : Bool) (ip fp : List Char) (dot : Bool) (hip : AllDig ip) (hfp : AllDig fp)
-    (hd : dot = false → fp = []) (hne : ip ≠ [] ∨ fp ≠ []) :
+    (hd : dot = false → fp = []) (hne : ip ≠ [] ∨ fp ≠ [])
+    (hdot : dot = true → fp ≠ []) (hlead : ∀ t, ip ≠ '0' :: t) :
     OutLex neg (sgn neg (ip ++ (if dot then '.' :: fp else []))) ⟨sgOf neg, ip, dot, fp, none⟩ := by
-  refine ⟨⟨hip, hfp, hd, hne, ?_⟩, ?_, rfl⟩
+  refine ⟨⟨hip, hfp, hd, hne, ?_⟩, ?_, rfl, ⟨hdot, hlead⟩⟩
   · intro c sg ds h; cases h
   · simp [Lex.str, Lex.dotPart, Lex.exPart, sgOf_chars]
 
 /-- mantissa with exponent part `e[-]digits` -/
 theorem outLex_exp (neg : Bool) (ip fp : List Char) (dot : Bool) (esg : Sg) (k : Nat)
     (hip : AllDig ip) (hfp : AllDig fp)
-    (hd : dot = false → fp = []) (hne : ip ≠ [] ∨ fp ≠ []) :
+    (hd : dot = false → fp = []) (hne : ip ≠ [] ∨ fp ≠ [])
+    (hdot : dot = true → fp ≠ []) (hlead : ∀ t, ip ≠ '0' :: t) :
     OutLex neg (sgn neg (ip ++ ((if dot then '.' :: fp else []) ++ 'e' :: (esg.chars ++ decStr k))))
       ⟨sgOf neg, ip, dot, fp, some ('e', esg, decStr k)⟩ := by
-  refine ⟨⟨hip, hfp, hd, hne, ?_⟩, ?_, rfl⟩
+  refine ⟨⟨hip, hfp, hd, hne, ?_⟩, ?_, rfl, ⟨hdot, hlead⟩⟩
   · intro c sg ds h
     injection h with h; injection h with h1 h2; injection h2 with h2 h3
     subst h1 h3
@@ -79,8 +112,8 @@ theorem Sg.neg_plus : Sg.plus.neg = false := rfl
 theorem dval_congr (neg : Bool) (m : Nat) {x y : Int} (h : x = y) : dval neg m x = dval neg m y := by rw [h]
 
 theorem printCase_lex (s : List Char) (neg : Bool) (W : Nat) (ip fp : List Char) (e : Int)
-    (ds : List Char) (N0 : Int) (hds : AllDig ds) (hne : ds ≠ []) (hip : AllDig ip) (hfp : AllDig fp)
-    (hk : KindDig ip fp ds N0) :
+    (ds : List Char) (N0 : Int) (hds : AllDig ds) (hne : ds ≠ []) (hds0 : ∀ t, ds ≠ '0' :: t)
+    (hip : AllDig ip) (hfp : AllDig fp) (hk : KindDig ip fp ds N0) :
     printCase s neg W ip fp e ds N0 = s ∨
     ∃ l, OutLex neg (printCase s neg W ip fp e ds N0) l ∧
       (mlen ip fp + expLen e ≤ W → l.val = dval neg (natOf ds) (N0 + e - (ds.length : Int))) := by
@@ -98,7 +131,7 @@ theorem printCase_lex (s : List Char) (neg : Bool) (W : Nat) (ip fp : List Char)
       have hIE0 : 0 ≤ IE := by omega
       split
       · refine ⟨⟨sgOf neg, ds, false, [], some ('e', .none, decStr IE.toNat)⟩, ?_, ?_⟩
-        · have := outLex_exp neg ds [] false .none IE.toNat hds AllDig.nil (fun _ => rfl) (Or.inl hne)
+        · have := outLex_exp neg ds [] false .none IE.toNat hds AllDig.nil (fun _ => rfl) (Or.inl hne) (by intro h; cases h) hds0
           simpa [Sg.chars] using this
         · intro _
           simp only [Lex.val, Lex.expVal, sgOf_neg, Sg.neg_none, Sg.neg_minus, Bool.false_eq_true, if_false, Int.sub_zero, Int.natCast_zero, List.append_nil, natOf_decStr, List.length_nil]
@@ -106,6 +139,7 @@ theorem printCase_lex (s : List Char) (neg : Bool) (W : Nat) (ip fp : List Char)
       · refine ⟨⟨sgOf neg, ds ++ List.replicate IE.toNat '0', false, [], none⟩, ?_, ?_⟩
         · have := outLex_plain neg (ds ++ List.replicate IE.toNat '0') [] false
             (hds.append (AllDig.replicate_zero _)) AllDig.nil (fun _ => rfl) (Or.inl (by simp [hne]))
+            (by intro h; cases h) (lead_append hne hds0 _)
           simpa using this
         · intro _
           simp only [Lex.val, Lex.expVal, sgOf_neg, List.append_nil, natOf_append_zeros, List.length_nil, dval_shift]
@@ -116,7 +150,7 @@ theorem printCase_lex (s : List Char) (neg : Bool) (W : Nat) (ip fp : List Char)
         rename_i h2
         simp only [Bool.and_eq_true, decide_eq_true_eq] at h2
         refine ⟨⟨sgOf neg, [], true, ds, some ('e', .minus, decStr NE.natAbs)⟩, ?_, ?_⟩
-        · have := outLex_exp neg [] ds true .minus NE.natAbs AllDig.nil hds (by simp) (Or.inr hne)
+        · have := outLex_exp neg [] ds true .minus NE.natAbs AllDig.nil hds (by simp) (Or.inr hne) (fun _ => hne) (by intro t e; cases e)
           simpa [Sg.chars] using this
         · intro _
           simp only [Lex.val, Lex.expVal, sgOf_neg, Sg.neg_none, Sg.neg_minus, Bool.false_eq_true, if_false, Int.sub_zero, Int.natCast_zero, List.nil_append, natOf_decStr, if_true]
@@ -127,6 +161,7 @@ theorem printCase_lex (s : List Char) (neg : Bool) (W : Nat) (ip fp : List Char)
           · refine ⟨⟨sgOf neg, [], true, List.replicate NE.natAbs '0' ++ ds, none⟩, ?_, ?_⟩
             · have := outLex_plain neg [] (List.replicate NE.natAbs '0' ++ ds) true AllDig.nil
                 ((AllDig.replicate_zero _).append hds) (by simp) (Or.inr (by simp [hne]))
+                (fun _ => by simp [hne]) (by intro t e; cases e)
               simpa using this
             · intro _
               simp only [Lex.val, Lex.expVal, sgOf_neg, List.nil_append, natOf_zeros_append,
@@ -140,6 +175,12 @@ theorem printCase_lex (s : List Char) (neg : Bool) (W : Nat) (ip fp : List Char)
                     have := List.take_append_drop NE.toNat ds
                     rw [h, h'] at this; simpa using this.symm
                   · left; exact h)
+                (fun _ => by
+                  intro hnil
+                  have hl := congrArg List.length hnil
+                  simp only [List.length_drop, List.length_nil] at hl
+                  omega)
+                (lead_take hds0 _)
               simpa using this
             · intro _
               simp only [Lex.val, Lex.expVal, sgOf_neg, List.take_append_drop, List.length_drop]
@@ -150,7 +191,7 @@ theorem printCase_lex (s : List Char) (neg : Bool) (W : Nat) (ip fp : List Char)
           have leaf4a : ∃ l, OutLex neg (sgn neg (ds ++ 'e' :: '-' :: decStr IE.natAbs)) l ∧
               (mlen ip fp + expLen e ≤ W → l.val = dval neg (natOf ds) IE) := by
             refine ⟨⟨sgOf neg, ds, false, [], some ('e', .minus, decStr IE.natAbs)⟩, ?_, ?_⟩
-            · have := outLex_exp neg ds [] false .minus IE.natAbs hds AllDig.nil (fun _ => rfl) (Or.inl hne)
+            · have := outLex_exp neg ds [] false .minus IE.natAbs hds AllDig.nil (fun _ => rfl) (Or.inl hne) (by intro h; cases h) hds0
               simpa [Sg.chars] using this
             · intro _
               simp only [Lex.val, Lex.expVal, sgOf_neg, Sg.neg_minus, if_true, List.append_nil, natOf_decStr,
@@ -169,7 +210,7 @@ theorem printCase_lex (s : List Char) (neg : Bool) (W : Nat) (ip fp : List Char)
             · exact leaf4a
             · rename_i h4
               refine ⟨⟨sgOf neg, [], true, fp, some ('e', .minus, decStr e.natAbs)⟩, ?_, ?_⟩
-              · have := outLex_exp neg [] fp true .minus e.natAbs AllDig.nil hfp (by simp) (Or.inr hfne)
+              · have := outLex_exp neg [] fp true .minus e.natAbs AllDig.nil hfp (by simp) (Or.inr hfne) (fun _ => hfne) (by intro t e; cases e)
                 simpa [Sg.chars] using this
               · intro hW
                 simp only [Lex.val, Lex.expVal, sgOf_neg, Sg.neg_minus, if_true, List.nil_append, natOf_decStr]
@@ -186,7 +227,7 @@ theorem printCase_lex (s : List Char) (neg : Bool) (W : Nat) (ip fp : List Char)
             · exact leaf4a
             · rename_i h4
               refine ⟨⟨sgOf neg, ds, false, [], some ('e', .minus, decStr e.natAbs)⟩, ?_, ?_⟩
-              · have := outLex_exp neg ds [] false .minus e.natAbs hds AllDig.nil (fun _ => rfl) (Or.inl hne)
+              · have := outLex_exp neg ds [] false .minus e.natAbs hds AllDig.nil (fun _ => rfl) (Or.inl hne) (by intro h; cases h) hds0
                 simpa [Sg.chars] using this
               · intro hW
                 exfalso
@@ -200,7 +241,8 @@ theorem printCase_lex (s : List Char) (neg : Bool) (W : Nat) (ip fp : List Char)
             · exact leaf4a
             · rename_i h4
               refine ⟨⟨sgOf neg, ip, true, fp, some ('e', .minus, decStr e.natAbs)⟩, ?_, ?_⟩
-              · have := outLex_exp neg ip fp true .minus e.natAbs hip hfp (by simp) (Or.inl hi)
+              · have := outLex_exp neg ip fp true .minus e.natAbs hip hfp (by simp) (Or.inl hi) (fun _ => hf)
+                  (lead_of_append hi (by rw [← hdse]; exact hds0))
                 simpa [Sg.chars] using this
               · intro hW
                 simp only [Lex.val, Lex.expVal, sgOf_neg, Sg.neg_minus, if_true, natOf_decStr]
@@ -222,14 +264,14 @@ theorem replicate_succ_snoc (k : Nat) (c : Char) : List.replicate (k + 1) c = Li
 
 theorem sigDigits_kindDig {ip fp : List Char} (h : MantWF ip fp) :
     KindDig ip fp (sigDigits ip fp).1 (sigDigits ip fp).2 ∧ AllDig (sigDigits ip fp).1 ∧
-      (sigDigits ip fp).1 ≠ [] := by
+      (sigDigits ip fp).1 ≠ [] ∧ (∀ t, (sigDigits ip fp).1 ≠ '0' :: t) := by
   unfold sigDigits KindDig
   by_cases hi : ip = []
   · subst hi
     have hfne : fp ≠ [] := by rcases h.nonempty with h1 | h1; exact absurd rfl h1; exact h1
     obtain ⟨h1, h2, h3⟩ := dropZeros_spec fp
     simp only [List.isEmpty_nil, if_true]
-    refine ⟨Or.inl ⟨(by first | rfl | trivial), fp.length - (dropZeros fp).length, h1, (by first | rfl | trivial)⟩, h.dfp.dropZeros, ?_⟩
+    refine ⟨Or.inl ⟨(by first | rfl | trivial), fp.length - (dropZeros fp).length, h1, (by first | rfl | trivial)⟩, h.dfp.dropZeros, ?_, h3⟩
     intro hnil
     rw [hnil] at h1
     simp only [List.length_nil, Nat.sub_zero, List.append_nil] at h1
@@ -244,15 +286,19 @@ theorem sigDigits_kindDig {ip fp : List Char} (h : MantWF ip fp) :
       obtain ⟨h1, h2, h3⟩ := dropTrail_spec '0' ip
       simp only [hie, Bool.false_eq_true, if_false, List.isEmpty_nil, if_true]
       refine ⟨Or.inr (Or.inl ⟨hi, (by first | rfl | trivial), ip.length - (dropTrail '0' ip).length, h1, (by first | rfl | trivial)⟩), h.dip.dropTrail '0', ?_⟩
+      suffices hx : ∃ c t', c ≠ '0' ∧ dropTrail '0' ip = c :: t' by
+        obtain ⟨c, t', hc, ht'⟩ := hx
+        rw [ht']
+        exact ⟨by simp, fun t e => by injection e with e1 _; exact hc e1⟩
       cases hip : ip with
       | nil => exact absurd hip hi
       | cons c t =>
         have hc : c ≠ '0' := by intro hc; rw [hc] at hip; exact h.lead t hip
         obtain ⟨t', ht'⟩ := dropTrail_cons_ne (c := '0') t hc
-        rw [ht']; simp
+        exact ⟨c, t', hc, ht'⟩
     · have hfe := nonempty_of_ne_nil hf
       simp only [hie, hfe, Bool.false_eq_true, if_false]
-      exact ⟨Or.inr (Or.inr ⟨hi, hf, (by first | rfl | trivial), (by first | rfl | trivial)⟩), h.dip.append h.dfp, by simp [hi]⟩
+      exact ⟨Or.inr (Or.inr ⟨hi, hf, (by first | rfl | trivial), (by first | rfl | trivial)⟩), h.dip.append h.dfp, by simp [hi], lead_append hi h.lead fp⟩
 
 /-- the value of the trimmed mantissa in terms of its significant digits -/
 theorem kindDig_val (neg : Bool) {ip fp ds : List Char} {N0 : Int} (e : Int) (hk : KindDig ip fp ds N0) :
@@ -283,8 +329,8 @@ theorem printNum_lex (s : List Char) (neg : Bool) (W : Nat) (m : Mant) (h : Mant
     ∃ l, OutLex neg (printNum s neg W m) l ∧
       (mlen m.ip m.fp + expLen m.e ≤ W → l.val = mantVal neg m) := by
   unfold printNum mantVal
-  obtain ⟨hk, hd, hne⟩ := sigDigits_kindDig h
+  obtain ⟨hk, hd, hne, h0⟩ := sigDigits_kindDig h
   rw [kindDig_val neg m.e hk]
-  exact printCase_lex s neg W m.ip m.fp m.e _ _ hd hne h.dip h.dfp hk
+  exact printCase_lex s neg W m.ip m.fp m.e _ _ hd hne h0 h.dip h.dfp hk
 
 end Verif.Proofs.Num
